@@ -234,9 +234,9 @@ PROPS = {
         technique="property-based testing: stateful model-based testing (rapidcheck) + invariant over independent parse",
         assumptions=[],
         jobs=[
-            dict(harness="tables", prop="c11_tables", cases=(8000, 100000), size=(30, 100)),
-            dict(harness="tables", prop="c11_readblock", cases=(8000, 100000), size=(30, 60)),
-            dict(harness="hist", prop="hist_c11", cases=(6000, 150000), size=(40, 120)),
+            dict(harness="tables", prop="c11_tables", cases=(8000, 60000), size=(30, 100)),
+            dict(harness="tables", prop="c11_readblock", cases=(8000, 60000), size=(30, 60)),
+            dict(harness="hist", prop="hist_c11", cases=(6000, 50000), size=(40, 120)),
         ],
     ),
     "C17": dict(
